@@ -139,10 +139,11 @@ func c18pExec(pe *c18pEnv, c c18Case, icpt, statsOn bool) c18Obs {
 	e := pe.rec
 	e.imk, e.imc, e.imsg = c.imk, c.imc, c.imsg
 	e.calls, e.ev, e.hlog, e.dlv, e.iret = nil, nil, nil, nil, "-"
+	c18kept = nil
 	r, cancel := c.request()
 	defer cancel()
 	w, p := serveRec(pe.front[b2i(icpt)*2+b2i(statsOn)], r)
-	o := c18Obs{panicked: p != "", calls: c18Join(e.calls), ev: c18Join(e.ev), iret: e.iret, gs: "-", body: "x"}
+	o := c18Obs{panicked: p != "", calls: c18Join(e.calls), ev: c18Join(c18EvCheck(e.ev)), iret: e.iret, gs: "-", body: "x"}
 	if p != "" {
 		return o
 	}
